@@ -61,13 +61,17 @@ func panicSite(stack string) string {
 			if j := strings.LastIndex(fn, "("); j > 0 {
 				fn = fn[:j]
 			}
-			if j := strings.LastIndex(fn, "/"); j >= 0 {
-				fn = fn[j+1:]
-			}
-			return fn
+			return shortFunc(fn)
 		}
 	}
 	return "unknown"
+}
+
+func shortFunc(fn string) string {
+	if j := strings.LastIndex(fn, "/"); j >= 0 {
+		fn = fn[j+1:]
+	}
+	return fn
 }
 
 type rtOutcome struct {
@@ -310,7 +314,10 @@ type dynCase struct {
 	Steps      []dynStep `json:"steps"`
 }
 
-const maxApart = 40 // the codec's update queue holds 50; stay below it
+const (
+	maxApart   = 40 // how far the decoder may run ahead of the encoder
+	maxPending = 45 // updates queued on one codec between two frames (the queue holds 50)
+)
 
 func (w *world) specOf(set []int) codecSpec {
 	var s codecSpec
@@ -362,12 +369,16 @@ func genDynCase(r *prng.R, w *world) dynCase {
 	e, d = 1, 1
 	burst := r.Chance(1, 4)
 	steps := r.Range(3, 14)
+	// Update queues the new state until the next Encode/Decode on that codec; the queue
+	// holds 50 and Update blocks beyond that, so the script keeps the number of updates
+	// between two frames below it on each side.
+	pendE, pendD := 1, 1
 	for i := 0; i < steps; i++ {
 		switch x := r.Intn(10); {
-		case x < 3 && d-e < maxApart: // decoder moves ahead
+		case x < 3 && d-e < maxApart && pendD < maxPending: // decoder moves ahead
 			k := 1
 			if burst {
-				k = r.Range(1, maxApart-(d-e))
+				k = r.Range(1, min(maxApart-(d-e), maxPending-pendD))
 			}
 			for ; k > 0; k-- {
 				if d == len(sets) {
@@ -375,27 +386,29 @@ func genDynCase(r *prng.R, w *world) dynCase {
 				}
 				dc.Steps = append(dc.Steps, dynStep{Op: "upd-dec", Set: sets[d]})
 				d++
+				pendD++
 			}
-		case x < 5 && e < d: // encoder catches up (by one or fully)
+		case x < 5 && e < d && pendE < maxPending: // encoder catches up (by one or fully)
 			k := 1
 			if r.Bool() {
 				k = d - e
 			}
-			if k > maxApart {
-				k = maxApart
-			}
+			k = min(k, maxPending-pendE)
 			for ; k > 0; k-- {
 				dc.Steps = append(dc.Steps, dynStep{Op: "upd-enc", Set: sets[e]})
 				e++
+				pendE++
 			}
-		case x < 6 && e == d && r.Chance(1, 3): // encoder ahead by one: decoder must refuse, not mis-decode
+		case x < 6 && e == d && pendE < maxPending && r.Chance(1, 3): // encoder ahead by one: decoder must refuse, not mis-decode
 			sets = append(sets, genSet(r))
 			dc.Steps = append(dc.Steps, dynStep{Op: "upd-enc", Set: sets[e]})
 			e++
+			pendE++
 		default:
 			spec := w.specOf(sets[e-1])
 			f, sh := genFrame(r, spec, false)
 			dc.Steps = append(dc.Steps, dynStep{Op: "frame", Series: f, Shape: sh.String(), Stream: r.Chance(1, 3)})
+			pendE, pendD = 0, 0
 		}
 	}
 	return dc
